@@ -118,6 +118,21 @@ func genF4(g *fw.GenCtx, em *emitter) {
 	add("restart-in-functional-sub", map[string]string{"_decl": "sub rs BOOL { restart; return true; }\n", "recv": "if (rs()) { log \"x\"; }"}, "miss")
 	add("error-in-functional-sub", map[string]string{"_decl": "sub rs BOOL { error 601; return true; }\n", "recv": "if (rs()) { log \"x\"; }"}, "miss")
 	em.mark()
+	// origin responses without a body, with odd statuses and odd headers: fetched (miss, then hit), passed, and with a
+	// deliver-time read of the body related variables; process document and actual response
+	for _, pth := range []string{"/origin/empty", "/origin/204", "/origin/304", "/origin/599", "/origin/redirect", "/origin/headers", "/origin/big"} {
+		for _, act := range []bool{false, true} {
+			for _, recv := range []string{"", "return(pass);"} {
+				acts := map[string]string{"recv": recv, "fetch": "log beresp.status \" \" beresp.http.Content-Length;", "deliver": "log resp.status \" \" resp.http.Content-Length \" \" resp.body_bytes_written \" \" std.strlen(resp.response);"}
+				e := Exec{Fam: "F4", Con: "origin-response" + pth[len("/origin"):], Mode: "http", Main: renderLC(acts), Reqs: []string{stdReq(pth), stdReq(pth), stdReq(pth + "?2")}, Bound: true, Tag: "lc:origin-response", Act: act}
+				if act {
+					e.Con += "/actual-response"
+				}
+				em.add(e)
+			}
+		}
+	}
+	em.mark()
 	// status codes and reason phrases at and beyond the edges, written to the object of the scope; served as the process
 	// document and as the actual response (net/http refuses codes outside 100..999)
 	for _, sv := range []string{"0", "1", "99", "100", "101", "199", "204", "304", "599", "600", "999", "1000", "65536", "2147483647", "2147483648", "9223372036854775807", "-1", "-200"} {
